@@ -186,6 +186,13 @@ func (e *Engine) invoke(fr *Frame, ret ssa.Value, fn *ssa.Function, binds []Valu
 		}
 	}
 	// 3. engine intrinsics
+	if h, ok := intrinsicsExtra[name]; ok {
+		res, done := h(e, fr, args)
+		if done {
+			e.finish(fr, ret, res, noAdvance)
+		}
+		return
+	}
 	if h, ok := intrinsics[name]; ok {
 		res, done := h(e, fr, args)
 		if done {
